@@ -26,7 +26,7 @@ RULE = ('each run = generated directory graph (<= 6 directories, 0-4 directory s
         'and CLI, one-file-system mode on/off, under a per-operation step cap; non-trivial = the graph has '
         'a directory symlink or a device boundary; distinct = distinct seam event-log digest')
 PLAN = {'quick': {'n': 12000, 'budget_s': 90, 'block': 40},
-        'thorough': {'n': 80000, 'budget_s': 900, 'block': 200}}
+        'thorough': {'n': 600000, 'budget_s': 2400, 'block': 200}}
 ASSUMPTIONS = ['loops are defined on (device, inode) identity of directories along the walk path (M-walk)',
                'which path a loop error names is not checked']
 
